@@ -19,7 +19,7 @@ import (
 
 // ---- C05: format and content rules accept exactly their documented language ----
 
-var fsPaths struct{ file, dir, missing, root, linkFile, linkDir, dangling, loop string }
+var fsPaths struct{ file, dir, missing, root, linkFile, linkDir, dangling, loop, throughFile, longName string }
 
 // setupFS creates the ground truth for file / dir: a regular file, a directory, a missing path.
 func setupFS() func() {
@@ -31,6 +31,8 @@ func setupFS() func() {
 	fsPaths.file = filepath.Join(root, "plain.txt")
 	fsPaths.dir = filepath.Join(root, "sub")
 	fsPaths.missing = filepath.Join(root, "nothing-here")
+	fsPaths.throughFile = filepath.Join(fsPaths.file, "child")
+	fsPaths.longName = filepath.Join(root, strings.Repeat("n", 300))
 	_ = os.WriteFile(fsPaths.file, []byte("x"), 0o644)
 	_ = os.Mkdir(fsPaths.dir, 0o755)
 	// symbolic links: to the file, to the directory, to nothing (dangling), to itself (loop)
@@ -337,10 +339,10 @@ func genC05CaseFor(t *rapid.T, rule string) (c *ScalarCase, class string) {
 		}
 		c.RePats[item] = p.pat
 	case "file", "dir":
-		p := rapid.SampledFrom([]string{fsPaths.file, fsPaths.dir, fsPaths.missing, fsPaths.root, fsPaths.linkFile, fsPaths.linkDir, fsPaths.dangling, fsPaths.loop}).Draw(t, "path")
+		p := rapid.SampledFrom([]string{fsPaths.file, fsPaths.dir, fsPaths.missing, fsPaths.root, fsPaths.linkFile, fsPaths.linkDir, fsPaths.dangling, fsPaths.loop, fsPaths.throughFile, fsPaths.longName}).Draw(t, "path")
 		c.T, c.Val = strVal(p)
 		class = map[string]string{fsPaths.file: "regular-file", fsPaths.dir: "directory", fsPaths.missing: "missing-path", fsPaths.root: "directory",
-			fsPaths.linkFile: "link-to-file", fsPaths.linkDir: "link-to-directory", fsPaths.dangling: "dangling-link", fsPaths.loop: "link-loop"}[p]
+			fsPaths.linkFile: "link-to-file", fsPaths.linkDir: "link-to-directory", fsPaths.dangling: "dangling-link", fsPaths.loop: "link-loop", fsPaths.throughFile: "path-through-a-regular-file", fsPaths.longName: "name-too-long"}[p]
 	}
 	// custom message (half of the cases), neighbours in the rule list so the splitter is exercised
 	if rapid.Bool().Draw(t, "withMsg") {
